@@ -122,9 +122,15 @@ def main(argv):
         chk_thread = threading.Thread(target=_chk)
         chk_thread.start()
     # 2/3. corpus + correspondence (+ oracles)
+    from . import impl as _impl_mod
     crashed = None
     try:
         mod.run(ctx)
+    except _impl_mod.WorkerCrash as e:
+        # a case on which the interpreter itself dies (memory corrupted through an object that the library handed
+        # out, ...): reported with the case
+        ctx.oracle_fail(e.item if isinstance(e.item, dict) else {"item": repr(e.item)[:2000]},
+                        {"oracle": str(e), "status": e.status})
     except Exception:  # harness crash = broken correspondence, reported as such
         crashed = traceback.format_exc()
     if tier == "thorough" and not crashed and ctx.vm_checked == 0 and ctx.model.sample:
